@@ -113,7 +113,7 @@ THEOREM SrcExtInterior ==
   <1>4. CASE mode = "reflect"
     <2>1. CASE N = 1  BY <1>4, <2>1 DEF SrcExt
     <2>2. CASE N # 1
-      <3>1. 2 * N - 2 \in Pos /\ t \in 0 .. (2 * N - 2 - 1) \/ t = N - 1  BY <2>2 DEF Pos
+      <3>1. (2 * N - 2 \in Pos /\ t \in 0 .. (2 * N - 2 - 1)) \/ t = N - 1  BY <2>2 DEF Pos
       <3>2. CASE t \in 0 .. (2 * N - 2 - 1)
         <4>1. 2 * N - 2 \in Pos  BY <2>2 DEF Pos
         <4>2. t % (2 * N - 2) = t  BY <3>2, <4>1, ModId
